@@ -46,6 +46,9 @@ def top(ch, leafkind, adversary):
              ("inst", "i0", ("mod", "L2"), [("x", sig(c[("i0", "x")])), ("y", sig(c[("i0", "y")]))]),
              ("inst", "i1", ("mod", "L2"), [("x", sig(c[("i1", "x")])), ("y", sig(c[("i1", "y")]))]),
              ("inst", "j", ("mod", "L1"), [("a", sig(c[("j", "a")])), ("b", sig(c[("j", "b")]))])]
+    # two instances of a port-less cell, whose internal net is called like a top-level net
+    decls += [("sig", "n", 1), ("inst", "rn", ("prim", "R", {"r": 15}), [("p", sig("n")), ("n", sig("s"))]),
+              ("inst", "z0", ("mod", "Z"), []), ("inst", "z1", ("mod", "Z"), [])]
     if leafkind == "ext":
         decls.append(("inst", "te", ("ext", "E2", {"k": 9}), [("p", sig("s")), ("q", sig("t"))]))
     else:
@@ -65,7 +68,10 @@ ADVERSARIES = [[], [("i0:m", 1)], [("i0:u0:n", 1)], [("i1:k", 2)], [("j:n", 1), 
 def mk(item):
     leafkind, ch2, cht, adv = item
     exts = {"E2": ext_leaf([("p", 1), ("q", 2)])}
-    mods = {"L1": l1(leafkind), "L2": l2(ch2), "Top": top(cht, leafkind, ADVERSARIES[adv])}
+    z = {"name": "Z", "style": "class", "decls": [("sig", "n", 1), ("sig", "k", 2),
+         ("inst", "ra", ("prim", "R", {"r": 16}), [("p", sig("n")), ("n", sig("n"))]),
+         ("inst", "ea", ("ext", "E2", {"k": 17}), [("p", sig("n")), ("q", sig("k"))])]}
+    mods = {"Z": z, "L1": l1(leafkind), "L2": l2(ch2), "Top": top(cht, leafkind, ADVERSARIES[adv])}
     return {"bundles": {}, "exts": exts, "modules": mods, "top": "Top"}
 
 
